@@ -1,6 +1,7 @@
 #!/venv/bin/python
-"""Self-test: apply each catalogued source mutant to /repo's working tree, run the property's quick
-check, expect exit 1, and restore the tree (git checkout).  Usage: selftest.py [Cnn ...] [-k substr]"""
+"""Self-test: apply each catalogued source mutant to a scratch COPY of /repo (under the system temp dir,
+removed afterwards), run the property's quick check against the copy (VERIF_REPO), expect exit 1.
+Usage: selftest.py [Cnn ...] [-k substr] [-j jobs]"""
 import os
 import subprocess
 import sys
@@ -48,41 +49,51 @@ def sh(cmd, **kw):
     return subprocess.run(cmd, shell=True, text=True, stdout=subprocess.PIPE, stderr=subprocess.STDOUT, **kw)
 
 
+def run_one(m):
+    """Mutate a scratch copy of /repo (outside /repo and /verif), run the quick check against it, remove it."""
+    import shutil
+    import tempfile
+    pid, label, f, old, new = m
+    src = open(os.path.join(REPO, f)).read()
+    if src.count(old) != 1:
+        return (m, "SKIP (pattern occurs %d times)" % src.count(old), "", False)
+    scratch = tempfile.mkdtemp(prefix="verif-mut-")
+    try:
+        dst = os.path.join(scratch, "repo")
+        shutil.copytree(REPO, dst, ignore=shutil.ignore_patterns(".git", "__pycache__", "doc"))
+        open(os.path.join(dst, f), "w").write(src.replace(old, new))
+        env = dict(os.environ, VERIF_NO_EVIDENCE="1", VERIF_REPO=dst, VERIF_REPLAY_DIR=os.path.join(scratch, "replays"))
+        r = subprocess.run([os.path.join(VERIF, "bin/check"), pid, "--tier", "quick"], env=env, text=True,
+                           stdout=subprocess.PIPE, stderr=subprocess.STDOUT)
+        fps = sorted({l.split("replay=")[1].split("/")[-1] for l in r.stdout.splitlines() if l.startswith("VIOLATION")})
+        ok = r.returncode == 1
+        verdict = "CAUGHT" if ok else "MISSED(rc=%d)" % r.returncode
+        tail = r.stdout[-1500:] if r.returncode == 2 else ""
+        return (m, verdict, " ".join(x.replace(pid + "-", "").rsplit("-", 1)[0] for x in fps)[:220] + ("\n" + tail if tail else ""), ok)
+    finally:
+        shutil.rmtree(scratch, ignore_errors=True)
+
+
 def main():
+    from concurrent.futures import ThreadPoolExecutor
     args = sys.argv[1:]
     sub = None
+    jobs = 3
     if "-k" in args:
         i = args.index("-k")
         sub = args[i + 1]
         del args[i:i + 2]
+    if "-j" in args:
+        i = args.index("-j")
+        jobs = int(args[i + 1])
+        del args[i:i + 2]
     pids = set(args)
-    if sh("git -C %s status --porcelain -uno" % REPO).stdout.strip():
-        print("refusing: /repo has uncommitted changes")
-        sys.exit(2)
-    env = dict(os.environ, VERIF_NO_EVIDENCE="1")
+    todo = [m for m in MUTANTS if (not pids or m[0] in pids) and (not sub or sub in m[1])]
     bad = 0
-    for pid, label, f, old, new in MUTANTS:
-        if pids and pid not in pids or sub and sub not in label:
-            continue
-        path = os.path.join(REPO, f)
-        src = open(path).read()
-        if src.count(old) != 1:
-            print("%s %-24s SKIP (pattern occurs %d times)" % (pid, label, src.count(old)))
-            bad += 1
-            continue
-        try:
-            open(path, "w").write(src.replace(old, new))
-            r = subprocess.run([os.path.join(VERIF, "bin/check"), pid, "--tier", "quick"], env=env, text=True,
-                               stdout=subprocess.PIPE, stderr=subprocess.STDOUT)
-            fps = sorted({l.split("replay=")[1].split("/")[-1] for l in r.stdout.splitlines() if l.startswith("VIOLATION")})
-            verdict = "CAUGHT" if r.returncode == 1 else "MISSED(rc=%d)" % r.returncode
-            if r.returncode != 1:
-                bad += 1
-            print("%s %-24s %s %s" % (pid, label, verdict, " ".join(fps)[:200]))
-            if r.returncode == 2:
-                print(r.stdout[-1500:])
-        finally:
-            sh("git -C %s checkout -- %s" % (REPO, f))
+    with ThreadPoolExecutor(jobs) as ex:
+        for m, verdict, detail, ok in ex.map(run_one, todo):
+            print("%s %-26s %s %s" % (m[0], m[1], verdict, detail), flush=True)
+            bad += not ok
     sys.exit(1 if bad else 0)
 
 
